@@ -121,6 +121,30 @@ def self_edges(ctx, f, g, cfg):
     ctx.instance("C15.self-deadlock", "statics + breaker state [%s]" % cfg, "re-acquisitions: %d" % n, "0", n == 0, cfg)
 
 
+def _public_holder(f, path):
+    """The function a finding is keyed by: the public / trait-role function that holds the lock across the callback.  A closure is
+    named after the function it is written in, a private helper after its (single) caller - so that moving the code into a helper or
+    renumbering closures does not create a "new" finding, while a new public holder still does."""
+    from . import inline
+    import re as _re
+    is_clo = False
+    for _ in range(5):
+        b = f.bodies.get(path)
+        if b is None:
+            break
+        if b.kind == "Closure":
+            is_clo = True
+            path = b.root or _re.sub(r"(::\{closure#\d+\})+$", "", path)
+            continue
+        if inline.default_policy(f, b, b):
+            cs = {(f.bodies[cb.path].root or cb.path) if cb.kind == "Closure" else cb.path for cb, bb, t in f.callers_of(path)}
+            if len(cs) == 1:
+                path = next(iter(cs))
+                continue
+        break
+    return path + ("::{closure}" if is_clo else "")
+
+
 def callbacks(ctx, f, g, cfg):
     acq = g.acquires()
     ro = readonly_manager_fns(f)
@@ -137,7 +161,7 @@ def callbacks(ctx, f, g, cfg):
         if not shared:
             continue
         seen_sites += 1
-        holder = s["body"].path.replace("core::", "", 1)
+        holder = _public_holder(f, s["body"].path).replace("core::", "", 1)
         for cls in sorted(shared):
             blockers = sorted(rp.replace("core::", "", 1) for rp, locks in ro_locks.items() if any(c == cls and waits for (c, mode, waits) in locks))
             if not blockers:
